@@ -12,6 +12,9 @@ ASSUMPTIONS = [
     'sentinels in the parsed tree before rendering (documented modify-the-AST-then-render use) and the bracketed regions are cut '
     'from the output; inputs containing the sentinels are not generated',
     'attribute rule is exactly the statement\'s: no double quote and no angle bracket inside a value (a bare & is not flagged)',
+    'raw HTML that ends up inside an attribute value (inline HTML in an image description) is not "set aside": it must obey the attribute rule',
+    'inputs with lone surrogates (text decoded with surrogateescape) are included; where the renderer refuses them with UnicodeEncodeError '
+    'there is no output to judge (counted as ambient; lone surrogates are not Unicode scalar values, so C01 does not cover them)',
 ]
 
 S_OPEN, S_CLOSE = '\ue000', '\ue001'
@@ -51,6 +54,11 @@ def cut_raw(out):
         if S_OPEN in out[a + 1:b]:
             return None, cuts
         res.append(out[i:a])
+        before = ''.join(res)
+        if before.rfind('<') > before.rfind('>'):
+            # the raw content sits inside a tag, i.e. in an attribute value (image description): nothing there is
+            # "verbatim raw HTML" - it stays and must obey the attribute rule like any other text
+            res.append(out[a + 1:b])
         i = b + 1
         cuts += 1
     s = ''.join(res)
@@ -229,7 +237,7 @@ def run(ctx):
     for k in range(sz['payload'] // ctx.nshards):
         if ctx.out_of_time():
             break
-        text = payload_doc(rng)
+        text = payload_doc(rng, surrogates=True)
         for o in rng.sample(OPTS, 3):
             check(ctx, text, o, 'payload')
         if k < 2:
